@@ -75,6 +75,16 @@ class CFG:
             self._edge(n.id, e, False)
             self._may_raise_edges(n.id, ctx)
             return n.id
+        if isinstance(st, ast.For) and isinstance(st.target, ast.Name) and st.target.id.startswith('__once') and \
+           isinstance(st.iter, ast.Tuple) and len(st.iter.elts) == 1 and not st.orelse:
+            # the one-pass wrapper that inlining an early-returning helper leaves: a straight block
+            # (`break` and the end of the body both leave it; nothing comes back)
+            n = self._new('stmt', st)
+            self.by_stmt[id(st)] = n.id
+            c2 = dict(ctx, brk=nxt, cont=nxt)
+            b = self._seq(st.body, nxt, c2)
+            self._edge(n.id, b, None)
+            return n.id
         if isinstance(st, (ast.For, ast.AsyncFor)):
             n = self._new('for', st)
             self.by_stmt[id(st)] = n.id
